@@ -185,6 +185,7 @@ func (g *G) planCreate(stream string, id string, poolSize int, kind Item, varian
 		n = 2 + g.r.Intn(poolSize-1)
 	}
 	c := &Case{Kind: "create", Stream: stream, Container: g.container(id, stream == "removal"), Plugins: g.subset(poolSize, n)}
+	g.echoC, g.echoRes = c.Container, c.Container.Res
 	p := newPlanner(g, n)
 	targets := []string{"o1", "o2"}
 	switch {
@@ -264,6 +265,7 @@ func (g *G) planUpdate(stream string, id string, poolSize int, kind Item) *Case 
 	default:
 		c.ReqRes = &nm.Res{}
 	}
+	g.echoC, g.echoRes = nil, c.ReqRes
 	p := newPlanner(g, n)
 	targets := []string{id, id, "o1", "o2"}
 	switch {
@@ -285,6 +287,7 @@ func (g *G) planUpdate(stream string, id string, poolSize int, kind Item) *Case 
 func (g *G) planStop(stream string, id string, poolSize int) *Case {
 	n := 1 + g.r.Intn(poolSize)
 	c := &Case{Kind: "stop", Stream: stream, Container: &nm.Container{ID: id}, Plugins: g.subset(poolSize, n)}
+	g.echoC, g.echoRes = nil, nil
 	p := newPlanner(g, n)
 	targets := []string{id, "o1", "o2"}
 	if stream == "sdisjoint" {
